@@ -1,7 +1,7 @@
 """Obligation bookkeeping, evidence files, known findings, exit codes.
 
 exit 0: every obligation holds (or fails only as a listed known finding)
-exit 1: at least one unlisted violation; one line `VIOLATION property=<id> replay=<path>` each
+exit 1: at least one unlisted violation (also when some other instance could not be decided); one line `VIOLATION property=<id> replay=<path>` each
 exit 2: ANALYSIS-ERROR (anchor vanished, idiom not understood, instance count below floor)
 """
 import hashlib
@@ -235,10 +235,12 @@ class Report:
         )
         for l in lines:
             print(l)
-        if self.errors:
-            return 2
+        # a definite violation outranks an instance the analysis could not decide: the VIOLATION
+        # lines above are the verdict, the ANALYSIS-ERROR lines say what else was left open
         if new_viol:
             return 1
+        if self.errors:
+            return 2
         return 0
 
 
